@@ -101,3 +101,73 @@ def _domain_rows(strict):
 
 DOMAIN = {F + 'get_valid_idx_combinations.<locals>._check_gte': _domain_rows(False),
           F + 'get_valid_idx_combinations.<locals>._check_gt': _domain_rows(True)}
+
+
+# ------------------------------------------------------------------------------ options removed up front (C13)
+PRE = F + 'get_constraint_pre_removed_options'
+CONTRACTS[PRE] = dict(
+    properties=['C13'],
+    types={'choice_constraint': 'Ref[ChoiceConstraintX]', 'permanent_nodes': 'Set[Ref]'},
+    returns='List[Tuple[Ref,List[Ref]]]',
+    locals={'pre_removed_opts': 'List[Tuple[Ref,List[Ref]]]', 'removed_options': 'List[Ref]'},
+    requires={'one-option-list-per-choice': 'implies(choice_constraint.options is not None, len(choice_constraint.options) == len(choice_constraint.nodes))',
+              'some-choice': 'implies(choice_constraint.options is not None, len(choice_constraint.nodes) >= 1)'},
+    defs={'cc': ((), 'choice_constraint'), 'n': ((), 'len(choice_constraint.nodes)'),
+          'cnt': (('i',), 'len(choice_constraint.options[i])')},
+    loops={'for i_dec, dec_node in enumerate(choice_constraint.nodes)': dict(index='k', invariant={
+        'one-entry-per-choice': 'len(pre_removed_opts) == k',
+        # only indices outside the window [i, count - choices after) are removed (the converse -- every such index is
+        # removed -- needs the result position of a kept source position as a witness and stays with the bounded layer)
+        'entries': 'forall(i, 0, k, pre_removed_opts[i][0] == choice_constraint.nodes[i] and '
+                   'forall(q, 0, len(pre_removed_opts[i][1]), exists(j, 0, cnt(i), choice_constraint.options[i][j] == pre_removed_opts[i][1][q] and (j < i or j >= cnt(i) - (n() - (i + 1))))))',
+    })},
+    ensures={
+        'no-options-nothing-removed': ('property', 'implies(choice_constraint.options is None, len(result) == 0)'),
+        # statement of C13 for PERMUTATION: options are only given up when pairwise different indices are impossible
+        # for a reason this function can see -- more choices than the longest option list
+        'permutation-only-pruned-when-unsatisfiable': ('property',
+            'implies(choice_constraint.options is not None and choice_constraint.type == ChoiceConstraintType.PERMUTATION and len(result) > 0, '
+            'forall(i, 0, n(), cnt(i) < n()))'),
+        'permutation-unsatisfiable-prunes-everything': ('property',
+            'implies(choice_constraint.options is not None and choice_constraint.type == ChoiceConstraintType.PERMUTATION and forall(i, 0, n(), cnt(i) < n()), '
+            'len(result) == n() and forall(i, 0, n(), result[i][0] == choice_constraint.nodes[i] and result[i][1] == choice_constraint.options[i]))'),
+        # UNORDERED_NOREPL over permanent choices: option j of choice i survives iff a strictly increasing combination
+        # can pass through it: i <= j (room for the i choices before) and j < count - (choices after)
+        'norepl-removes-only-unreachable-indices': ('property',
+            'implies(choice_constraint.options is not None and choice_constraint.type == ChoiceConstraintType.UNORDERED_NOREPL and '
+            'forall(i, 0, n(), choice_constraint.nodes[i] in permanent_nodes), '
+            'len(result) == n() and forall(i, 0, n(), result[i][0] == choice_constraint.nodes[i] and '
+            'forall(q, 0, len(result[i][1]), exists(j, 0, cnt(i), choice_constraint.options[i][j] == result[i][1][q] and (j < i or j >= cnt(i) - (n() - (i + 1)))))))'),
+        'other-constraints-untouched': ('property',
+            'implies(choice_constraint.options is not None and choice_constraint.type != ChoiceConstraintType.PERMUTATION and '
+            'not (choice_constraint.type == ChoiceConstraintType.UNORDERED_NOREPL and forall(i, 0, n(), choice_constraint.nodes[i] in permanent_nodes)), len(result) == 0)'),
+    },
+    modifies=[],
+)
+
+
+def _domain_pre_removed(n):
+    import random, os
+    from adsg_core.graph.choice_constraints import ChoiceConstraint, ChoiceConstraintType, get_constraint_pre_removed_options
+    from adsg_core.graph.adsg_nodes import NamedNode, SelectionChoiceNode
+    rng = random.Random(8700 + int(os.environ.get('VERIF_SEED', '0') or 0))
+    for _ in range(n):
+        nch = rng.randint(1, 4)
+        nodes = [SelectionChoiceNode(f'c{i}') for i in range(nch)]
+        ctype = rng.choice(list(ChoiceConstraintType))
+        if rng.random() < 0.1:
+            options = None
+        elif ctype in (ChoiceConstraintType.UNORDERED, ChoiceConstraintType.UNORDERED_NOREPL) or rng.random() < 0.4:
+            k = rng.randint(1, 5)
+            options = [[NamedNode(f'o{i}_{j}') for j in range(k)] for i in range(nch)]
+        else:
+            options = [[NamedNode(f'o{i}_{j}') for j in range(rng.randint(1, 5))] for i in range(nch)]
+        cc = ChoiceConstraint(ctype, nodes, options)
+        perm = set(nodes) if rng.random() < 0.6 else set(rng.sample(nodes, rng.randint(0, nch)))
+        yield ({'choice_constraint': cc, 'permanent_nodes': perm, 'ChoiceConstraintType': ChoiceConstraintType},
+               (lambda cc=cc, perm=perm: get_constraint_pre_removed_options(cc, set(perm))), {},
+               f'get_constraint_pre_removed_options({ctype.name}, option counts {None if options is None else [len(o) for o in options]}, '
+               f'permanent {[str(p) for p in perm]})')
+
+
+DOMAIN[PRE] = _domain_pre_removed
